@@ -1,0 +1,88 @@
+// Copyright 2026 The Scriggo Authors. All rights reserved.
+// Use of this source code is governed by a BSD-style
+// license that can be found in the LICENSE file.
+
+//go:build verif
+
+package main
+
+import (
+	"bufio"
+	"bytes"
+	"encoding/json"
+	"fmt"
+	"net/url"
+	"os"
+	"testing"
+)
+
+// TestVerifServe serves the Markdown link destination replacer and the
+// Markdown escaping functions over stdin/stdout, one JSON document per line.
+// It is used by external verification tooling and runs only when the
+// VERIF_PIPE environment variable is set.
+func TestVerifServe(t *testing.T) {
+	if os.Getenv("VERIF_PIPE") == "" {
+		t.Skip("VERIF_PIPE not set")
+	}
+	type request struct {
+		Op   string `json:"op"`
+		Base string `json:"base"`
+		Dir  string `json:"dir"`
+		Src  []byte `json:"src"`
+	}
+	type response struct {
+		Out   []byte `json:"out"`
+		Err   string `json:"err,omitempty"`
+		Panic string `json:"panic,omitempty"`
+	}
+	in := bufio.NewReaderSize(os.Stdin, 1<<20)
+	out := bufio.NewWriter(os.Stdout)
+	enc := json.NewEncoder(out)
+	for {
+		line, err := in.ReadBytes('\n')
+		if len(line) == 0 && err != nil {
+			return
+		}
+		var req request
+		var res response
+		if err := json.Unmarshal(line, &req); err != nil {
+			res.Err = "bad request: " + err.Error()
+		} else {
+			func() {
+				defer func() {
+					if e := recover(); e != nil {
+						res.Panic = fmt.Sprint(e)
+					}
+				}()
+				switch req.Op {
+				case "replace":
+					base, err := url.Parse(req.Base)
+					if err != nil {
+						res.Err = "bad base: " + err.Error()
+						return
+					}
+					var dst bytes.Buffer
+					r := linkDestinationReplacer{base: base, dir: req.Dir}
+					if err := r.replace(&dst, req.Src); err != nil {
+						res.Err = err.Error()
+						return
+					}
+					res.Out = dst.Bytes()
+				case "escape":
+					res.Out = []byte(markdownURLEscape(string(req.Src)))
+				case "unescape":
+					s, err := markdownUnescape(req.Src)
+					if err != nil {
+						res.Err = err.Error()
+						return
+					}
+					res.Out = []byte(s)
+				default:
+					res.Err = "unknown op"
+				}
+			}()
+		}
+		_ = enc.Encode(res)
+		_ = out.Flush()
+	}
+}
